@@ -259,6 +259,27 @@ def run_case(case, wd):
                 res["prep_tags"] = json.loads(json.dumps(root2.tags()))
     except Exception as e:  # noqa
         res["prep_error"] = type(e).__name__ + ":" + str(e)[:200]
+    # path 7: the lightweight tasks the job process executes before the task (fromParameters, instance mode)
+    try:
+        from vpk import schema as _schema2
+        captured = {}
+        orig_load = ConfigInformation.load_objects
+
+        def _capture(*a, **k):
+            r = orig_load(*a, **k)
+            captured["objects"] = r
+            return r
+        ConfigInformation.load_objects = staticmethod(_capture)
+        try:
+            del _schema2.TRACE[:]
+            ConfigInformation.fromParameters(json.loads(json.dumps(objects)), as_instance=True, discard_id=True)
+        finally:
+            ConfigInformation.load_objects = staticmethod(orig_load)
+        idx7 = {id(o): i for i, o in enumerate(b.allobjs)}
+        back = {id(v): idx7.get(k, -1) for k, v in captured["objects"].items()}
+        res["executed"] = [back.get(id(t), -2) for t in _schema2.TRACE]
+    except Exception as e:  # noqa
+        res["executed_error"] = type(e).__name__ + ":" + str(e)[:200]
     try:
         res["instance"] = instance_view(objects, None, b)
     except Exception as e:  # noqa
